@@ -22,6 +22,11 @@ for line in fixed:
     esc = lambda t: ' '.join(t.split()).replace('|', '\\|')
     rows.append('| %s | %s | %s | %s |' % (m.group(2), m.group(1), esc(m.group(3)), esc(subj)))
 block('FIXTABLE', '\n'.join(rows))
+nfix = subprocess.run("git -C /repo log --oneline | grep -c ' fix:'", shell=True, capture_output=True, text=True).stdout.strip()
+s = re.sub(r"\(§7: \d+ `fix:` commits", "(§7: %s `fix:` commits" % nfix, s)
+nopen = len({f['key'] for f in json.load(open('/verif/known_findings.json'))['findings'] if f['status'] == 'open'})
+s = re.sub(r"commits in `/repo`, \d+ open known findings", "commits in `/repo`, %d open known findings" % nopen, s)
+nseeds = len([x for x in os.listdir('/verif/seeded') if not x.startswith('_')])
 cov = []
 for tier in ('quick', 'thorough'):
     f = '/verif/runs/summary-%s.txt' % tier
